@@ -1680,6 +1680,99 @@ const RULE: &str = "cases = one params value handed to ToRpcParams::to_rpc_param
 	compared with the oracle values of at least one successfully inserted value, or a result was judged after at least one failed \
 	insert; distinct by the full case description.";
 
+// ---------------------------------------------------------------------------------------------------------------
+// Numbers beyond what `serde_json::Value` can hold (u128 / i128 outside the 64-bit range, raw number literals with more
+// digits than f64 / u64): the Value-based oracle above cannot express them, so this family compares TEXT - every
+// element of the built params, taken as a raw span by the independent scanner, must be the JSON text of the inserted value.
+
+fn bignum_family(seed: u64, n: usize) -> (Evidence, Vec<Violation>) {
+	use jsonrpsee_core::params::{ArrayParams, ObjectParams};
+	let mut ev = Evidence::new("");
+	let mut violations = Vec::new();
+	let mut r = Rng::new(seed ^ 0xb16);
+	enum Big {
+		U(u128),
+		I(i128),
+		Raw(String),
+		Small(u64),
+		Str(String),
+	}
+	let pick = |r: &mut Rng| match r.below(9) {
+		0 => Big::U(u128::MAX),
+		1 => Big::U(u64::MAX as u128 + 1 + r.next_u64() as u128),
+		2 => Big::I(i128::MIN),
+		3 => Big::I(i64::MIN as i128 - 1 - (r.next_u64() >> 8) as i128),
+		4 => Big::Raw(format!("{}{}", 1 + r.below(9), (0..22 + r.usize(20)).map(|_| char::from(b'0' + r.below(10) as u8)).collect::<String>())),
+		5 => Big::Raw(format!("-0.{}1", "0".repeat(20 + r.usize(20)))),
+		6 => Big::Raw("1.2345678901234567890123456789e-3".to_string()),
+		7 => Big::Small(r.next_u64()),
+		_ => Big::Str(format!("s{}", r.below(100))),
+	};
+	let text_of = |b: &Big| match b {
+		Big::U(x) => x.to_string(),
+		Big::I(x) => x.to_string(),
+		Big::Raw(t) => t.clone(),
+		Big::Small(x) => x.to_string(),
+		Big::Str(s) => serde_json::to_string(s).unwrap_or_default(),
+	};
+	for case in 0..n {
+		let named = r.bool();
+		let k = 1 + r.usize(5);
+		let vals: Vec<Big> = (0..k).map(|_| pick(&mut r)).collect();
+		let mut arr = ArrayParams::new();
+		let mut obj = ObjectParams::new();
+		let mut failed: Option<String> = None;
+		for (i, v) in vals.iter().enumerate() {
+			let key = format!("k{i}");
+			let res = guarded(|| match (named, v) {
+				(false, Big::U(x)) => arr.insert(*x),
+				(false, Big::I(x)) => arr.insert(*x),
+				(false, Big::Raw(t)) => arr.insert(RawValue::from_string(t.clone()).expect("number literal")),
+				(false, Big::Small(x)) => arr.insert(*x),
+				(false, Big::Str(x)) => arr.insert(x.as_str()),
+				(true, Big::U(x)) => obj.insert(&key, *x),
+				(true, Big::I(x)) => obj.insert(&key, *x),
+				(true, Big::Raw(t)) => obj.insert(&key, RawValue::from_string(t.clone()).expect("number literal")),
+				(true, Big::Small(x)) => obj.insert(&key, *x),
+				(true, Big::Str(x)) => obj.insert(&key, x.as_str()),
+			});
+			match res {
+				Ok(Ok(())) => {}
+				Ok(Err(e)) => failed = Some(format!("insert {i} ({}) failed: {e}", text_of(v))),
+				Err(c) => failed = Some(format!("insert {i} panicked: {}", c.msg)),
+			}
+		}
+		let built = guarded(|| if named { obj.to_rpc_params() } else { arr.to_rpc_params() });
+		ev.eval();
+		ev.count("bignum_cases", 1);
+		ev.nontrivial(&("bignum", case, named));
+		let shape = if named { "object" } else { "array" };
+		let w = json!({"family": "bignum", "named": named, "values": vals.iter().map(&text_of).collect::<Vec<_>>()});
+		if let Some(f) = failed {
+			violations.push(Violation::new(format!("serialisable-value-refused/{shape}:big-number"), f, w.clone()));
+			continue;
+		}
+		let text = match built {
+			Ok(Ok(Some(raw))) => raw.get().to_string(),
+			other => {
+				violations.push(Violation::new(format!("build-failed/{shape}:big-number"), format!("{:?}", other.map(|r| r.map(|o| o.map(|x| x.get().to_string())).map_err(|e| e.to_string())).map_err(|c| c.msg)), w.clone()));
+				continue;
+			}
+		};
+		let mut sc = jrv::classify::Scanner::new(&text);
+		let Ok(node) = sc.document() else {
+			violations.push(Violation::new(format!("output-not-json/{shape}:big-number"), text.clone(), w.clone()));
+			continue;
+		};
+		let got: Vec<String> = if named { node.members.iter().map(|(_, v)| v.raw.trim().to_string()).collect() } else { node.elems.iter().map(|e| e.raw.trim().to_string()).collect() };
+		let want: Vec<String> = vals.iter().map(&text_of).collect();
+		if got != want {
+			violations.push(Violation::new(format!("value-changed/{shape}:big-number"), format!("inserted {want:?}, the built params hold {got:?}"), w.clone()));
+		}
+	}
+	(ev, violations)
+}
+
 fn main() {
 	let ctx = Ctx::from_env("C20", "exploration");
 	install_hook();
@@ -1704,6 +1797,7 @@ fn main() {
 	let _wd = watchdog("C20", Duration::from_secs(ctx.tier.pick(600, 3600)));
 	let mut ev = Evidence::new(RULE);
 	ev.assume("serde_json::to_value(v) is what a value v 'is' as JSON; serde_json::from_str is the meaning of 'parses back'");
+	ev.assume("big-number family (2e3 / 1e5 builders): u128 / i128 beyond 64 bits and raw number literals with more digits than f64 / u64 hold, compared as TEXT element by element (raw spans of the independent scanner)");
 	ev.assume("numbers are integers, NaN/-inf (written as null) or dyadic decimals, so equality after a re-parse is exact");
 	ev.assume("nesting depth stays below serde_json's recursion limit of 128 (the reference parser could not read deeper outputs)");
 	let mut agg = Agg::default();
@@ -1754,6 +1848,11 @@ fn main() {
 		ev.count(&format!("cases_with/{sig}"), *n);
 	}
 	let mut violations = agg.into_violations();
+	{
+		let (e, v) = bignum_family(ctx.seed, ctx.tier.pick(2_000, 100_000));
+		ev.merge(e);
+		violations.extend(v);
+	}
 
 	let mut inconclusive = None;
 	if ctx.tier == Tier::Thorough {
